@@ -356,6 +356,18 @@ fn is_convex_around(verts: &[(f64, f64)], lon_c: f64, lat_c: f64, r: f64) -> boo
   true
 }
 
+/// consecutive vertices keep turning the same way around c
+fn is_star_around(verts: &[(f64, f64)], lon_c: f64, lat_c: f64) -> bool {
+  let k = verts.len();
+  let cc = V3::from_lonlat(lon_c, lat_c);
+  let vv: Vec<V3> = verts.iter().map(|&(l, b)| V3::from_lonlat(l, b)).collect();
+  let s0 = geom::plane_side(&cc, &vv[0], &vv[1 % k]);
+  (0..k).all(|i| {
+    let s = geom::plane_side(&cc, &vv[i], &vv[(i + 1) % k]);
+    s != 0.0 && (s > 0.0) == (s0 > 0.0)
+  })
+}
+
 fn strat_generic() -> BoxedStrategy<Poly> {
   let r = prop_oneof![3 => (-4.0f64..-0.0969), 1 => (-9.0f64..-4.0)].prop_map(|u| (10.0f64).powf(u));
   (r, gens::position_principal(), 3usize..=12, any::<bool>(), any::<bool>(), any::<bool>(), 0usize..12)
@@ -392,8 +404,14 @@ fn strat_generic() -> BoxedStrategy<Poly> {
           if snap > 0 {
             let step = PI / (1u64 << (depth as u32 + 2)) as f64 * (1u64 << (snap - 1)) as f64;
             if step < r / 20.0 {
+              let backup = verts.clone();
               for v in verts.iter_mut() {
                 v.0 = ((v.0 / step).round() * step).rem_euclid(2.0 * PI);
+              }
+              // the vertices must still turn around c in the same order (else the polygon may
+              // intersect itself: outside the domain, and the star-shaped reference would be wrong)
+              if !is_star_around(&verts, lon_c, lat_c) {
+                verts = backup;
               }
               // snapping may break convexity when two vertices are very close: then only the
               // claims made for every polygon are checked
